@@ -185,7 +185,7 @@ def check_case(fn, recipe, script, focus, handlers, delivery, rec=None):
             out, sinks = run_ptera(fn, src, recipe, script, focus, handlers, delivery)
     except PR.Timeout:
         HY.force_global_clean()
-        raise PropertyViolation("hang", f"overridden run did not finish within 3 s\n{src}")
+        raise PropertyViolation("hang", f"overridden run did not finish within 3 s of CPU time\n{src}")
     except BaseException as e:
         if isinstance(e, (KeyboardInterrupt, SystemExit)):
             raise
